@@ -1,6 +1,7 @@
 package seqio
 
 import (
+	"errors"
 	"io"
 
 	"github.com/go-gts/gts"
@@ -38,6 +39,16 @@ func (s *Scanner) Scan() bool {
 		return false
 	}
 
+	// Running out of input is the normal end of a stream only between
+	// records: with anything but white space left it ends inside a record.
+	if s.pending() {
+		defer func() {
+			if s.err != nil && dig(s.err) == io.EOF {
+				s.err = errUnexpectedEnd
+			}
+		}()
+	}
+
 	if s.p == nil {
 		errs := make([]struct {
 			err error
@@ -68,6 +79,23 @@ func (s *Scanner) Scan() bool {
 
 	s.res, s.err = s.p.Parse(s.s)
 	return s.err == nil
+}
+
+var errUnexpectedEnd = errors.New("unexpected end of input inside a record")
+
+// pending reports whether anything other than white space is left to scan.
+func (s *Scanner) pending() bool {
+	s.s.Push()
+	defer s.s.Pop()
+	for s.s.Request(1) == nil {
+		switch s.s.Buffer()[0] {
+		case ' ', '\t', '\r', '\n':
+			s.s.Advance()
+		default:
+			return true
+		}
+	}
+	return false
 }
 
 // Value returns the most recently scanned sequence value.
